@@ -31,13 +31,14 @@ var ports *h.PortAlloc
 
 func main() {
 	run = h.NewRun(prop, "exploration")
-	run.Rule = "histories: one frps per case (PRNG allowPorts set of 2-6 ports out of 8, maxPortsPerClient 0-3), 2-8 scripted sessions issuing PRNG register/close/probe/drop operations (tcp, udp, stcp, tcp groups; requested ports 0, allowed, outside, negative, >65535, control port, squatted) concurrently with a squatter thread and hook-point delays; scenarios: forced windows (kind x protocol x variant); manager: concurrent Acquire/Release histories on a bare port manager. distinct = distinct (configuration, multiset of (protocol, port class, outcome) operations, interleaving signature)"
+	run.Rule = "histories: one frps per case (PRNG allowPorts set of 2-6 ports out of 8, given as TOML entries, as a legacy INI allow_ports string or as the --allow_ports flag string in a PRNG spelling of the same logical set: blanks, one-port ranges, adjacent / overlapping / repeated items, trailing comma; maxPortsPerClient 0-3), 2-8 scripted sessions issuing PRNG register/close/probe/drop operations (tcp, udp, stcp, tcp groups; requested ports 0, allowed, outside, negative, >65535, control port, squatted) concurrently with a squatter thread and hook-point delays; scenarios: forced windows (kind x protocol x variant); manager: concurrent Acquire/Release histories on a bare port manager. distinct = distinct (configuration, multiset of (protocol, port class, outcome) operations, interleaving signature)"
 	run.Assumptions = []string{
 		"CloseProxy has no reply in the protocol: a following Ping/Pong on the same session is used as acknowledgement",
 		"a session drop is acknowledged when the run id has left the server's session table (verif snapshot), bounded by 20 s",
 		"operations on the same proxy name are issued one at a time (a failing duplicate registration legitimately holds a port for a moment; name contention is C12's subject), everything else is concurrent",
 		"an acknowledged registration is two steps of the reference allocator inside its call/return interval (accounting, then listen): the server acquires first and listens later, other programs and probes can see the port unbound in between; a registration refused with a listen error is acquisition plus undo (legal only while another program holds the port named in the error); other refusals are one step",
 		"a refused request for a server-chosen port is tolerated while at least one free allowed port is held by another program (the server chooses first and listens later, and its search is bounded to 5 candidates)",
+		"a spelling of the allow list that the repository's loader rejects is not a verdict (the case then runs from TOML; rejections of well-formed spellings are counted as inconclusive); an accepted spelling must give exactly the logical set",
 		"which sockets the server has bound is read from /proc/net/{tcp,udp} filtered by this process's socket inodes",
 	}
 	ports = h.Ports(prop)
